@@ -15,6 +15,7 @@ CONSTANTS
   GuardInactive = TRUE
   GuardHealth = TRUE
   OwnDelete = FALSE
+  CacheMiss = FALSE
 VIEW view
 ACTION_CONSTRAINT Emit
 CHECK_DEADLOCK FALSE
